@@ -827,7 +827,13 @@ def run_shard(args):
     meta = {}
     for tid, prog, variant, seed, what in specs:
         rng = random.Random(seed)
-        if variant >= 100:  # C07's own mutator on top of a shared layout: multi-byte text before / inside every container
+        if variant >= 300:  # redundant parentheses broken over lines, then keyword adjacency
+            from .c07_layout import kwadj, wrapbreak
+            src = kwadj(wrapbreak(layouts.variant(PROGRAMS[prog], variant - 300, seed), seed), seed)
+        elif variant >= 200:  # C07's own mutator: keyword adjacency + identifiers that begin with keywords
+            from .c07_layout import kwadj
+            src = kwadj(layouts.variant(PROGRAMS[prog], variant - 200, seed), seed)
+        elif variant >= 100:  # C07's own mutator on top of a shared layout: multi-byte text before / inside every container
             from .c07_layout import wide
             src = wide(layouts.variant(PROGRAMS[prog], variant - 100, seed), seed)
         else:
@@ -847,7 +853,20 @@ def run_shard(args):
         if what == 'c07':
             cases = node_cases(tree) + slice_cases(tree, rng, conf.get('max_per_field', 12))
             rng.shuffle(cases)
-            if variant >= 100:  # byte / character column slips live in the slice paths: mostly non-empty slices here
+            if variant >= 300:  # multi-line parenthesised operands next to keywords: multi-line expression nodes first
+                ml = [c for c in cases if not c['slice'] and isinstance(c['elems'][0], ast.expr)
+                      and getattr(c['elems'][0], 'end_lineno', 0) > getattr(c['elems'][0], 'lineno', 0)]
+                ids = {id(c) for c in ml}
+                cases = ml[:2 * conf['cases']] + _prioritise([c for c in cases if id(c) not in ids], conf['cases'])
+            elif variant >= 200:  # keyword adjacency matters for statement-like pieces: block fields first
+                blk = ('body', 'orelse', 'finalbody', 'handlers', 'cases')
+                st = [c for c in cases if (c['slice'] and c['field'] in blk and c['stop'] > c['start'])
+                      or (not c['slice'] and c['path'][-1][0] in blk)]
+                oe = [c for c in st if (c['field'] if c['slice'] else c['path'][-1][0]) == 'orelse']
+                ids = {id(c) for c in oe}
+                cases = oe[:conf['cases']] + _prioritise([c for c in st if id(c) not in ids], conf['cases']) + \
+                    _prioritise([c for c in cases if not c['slice'] and c['path'][-1][0] not in blk], max(2, conf['cases'] // 2))
+            elif variant >= 100:  # byte / character column slips live in the slice paths: mostly non-empty slices here
                 sl = [c for c in cases if c['slice'] and c['stop'] > c['start']]
                 cases = _prioritise(sl, 2 * conf['cases']) + _prioritise([c for c in cases if not c['slice']],
                                                                          max(2, conf['cases'] // 3))
@@ -863,7 +882,21 @@ def run_shard(args):
             cases = node_cases(tree) + slice_cases(tree, rng, conf.get('max_per_field', 12))
             rng.shuffle(cases)
             ro = FST(src, 'exec')
-            for k, case in enumerate(_prioritise(cases, conf['cases'])):
+            if variant >= 300:  # multi-line parenthesised operands next to keywords: multi-line expression nodes first
+                ml = [c for c in cases if not c['slice'] and isinstance(c['elems'][0], ast.expr)
+                      and getattr(c['elems'][0], 'end_lineno', 0) > getattr(c['elems'][0], 'lineno', 0)]
+                ids = {id(c) for c in ml}
+                sel = ml[:5 * conf['cases']] + _prioritise([c for c in cases if id(c) not in ids], conf['cases'])
+            elif variant >= 200:  # keyword adjacency / keyword-prefixed names: block fields (orelse first)
+                blk = ('body', 'orelse', 'finalbody', 'handlers', 'cases')
+                st = [c for c in cases if (c['slice'] and c['field'] in blk and c['stop'] > c['start'])
+                      or (not c['slice'] and c['path'][-1][0] in blk)]
+                oe = [c for c in st if (c['field'] if c['slice'] else c['path'][-1][0]) == 'orelse']
+                ids = {id(c) for c in oe}
+                sel = oe[:conf['cases']] + _prioritise([c for c in st if id(c) not in ids], conf['cases'])
+            else:
+                sel = _prioritise(cases, conf['cases'])
+            for k, case in enumerate(sel):
                 o = dict(rng.choice(RT_OPTIONS))
                 case['op'] = rng.choice(SLICE_OPS if case['slice'] else NODE_OPS)
                 info = {'what': 'c08', 'case': {a: case[a] for a in ('path', 'field', 'start', 'stop', 'slice', 'op', 'kind')},
@@ -871,6 +904,8 @@ def run_shard(args):
                 add([roundtrip_event(rec, src, init, case, o)], info)
                 if not case['slice']:
                     forms = [rng.choice(REPLACE_FORMS) for _ in range(rng.choice((1, 1, 2, 3)))]
+                    if variant >= 300 and id(case) in ids:  # layout-sensitive forms on the layout-heavy variant
+                        forms = [rng.choice(('copy', 'src')), rng.choice(REPLACE_FORMS)]
                     add(replace_events(rec, src, init, case, forms, o), dict(info, forms=forms))
                     if case['ekind'] not in OPKINDS or True:
                         ds = rng.choice((True, False, 'strict'))
